@@ -16,6 +16,8 @@ pub mod c09;
 pub mod c01;
 pub mod c02;
 pub mod c03;
+pub mod c12;
+pub mod c13;
 pub mod c0405;
 pub mod msg;
 pub mod c19;
@@ -26,6 +28,8 @@ pub mod tree;
 pub fn lookup(id: &str) -> Option<Box<dyn Prop>> {
     match id {
         "C09" => Some(Box::new(c09::C09)),
+        "C12" => Some(Box::new(c12::C12)),
+        "C13" => Some(Box::new(c13::C13)),
         "C19" => Some(Box::new(c19::C19)),
         "C01" => Some(Box::new(c01::C01)),
         "C02" => Some(Box::new(c02::C02)),
